@@ -83,12 +83,18 @@ class Module:
 
 
 class Project:
-    def __init__(self, root: str = None, overlay: Optional[Dict[str, str]] = None):
+    def __init__(self, root: str = None, overlay: Optional[Dict[str, str]] = None, normalize: bool = True):
         self.root = root or REPO_ROOT
         self.overlay = dict(overlay or {})
         self.modules: Dict[str, Module] = {}
         self.funcs: Dict[str, FuncInfo] = {}
         self._load()
+        self.normalized: List[str] = []
+        self.transparent: set = set()       # new private helpers fully inlined into their callers
+        if normalize:
+            # helpers / constants introduced after the pinned tree are made transparent (sa/normalize.py)
+            from .normalize import normalize as _normalize
+            self.normalized = _normalize(self)
 
     # ------------------------------------------------------------------ loading
     def _load(self) -> None:
